@@ -241,6 +241,28 @@ NanProg(kind) ==
              \cup {Ins2(op, a, b) : op \in {"lt", "le", "gt", "ge", "eq", "ne"}, a \in {3, 4}, b \in 5..8}
       py == {[op |-> "py", name |-> n, a |-> a, b |-> b] : n \in {"__eq__", "__lt__", "__le__", "__gt__", "__ge__"}, a \in {1, 2}, b \in 1..4}
   IN [key |-> "order/nan/" \o kind, leaves |-> leaves, code |-> wraps \o SetToSeq(cmp \cup py)]
+\* sums whose running total passes through exactly 0.0 while still carrying derivatives (1.5(a) - 1.5(b) + 4(c)): the fold
+\* keeps adding, value AND derivatives; bare and in the container
+\* registers: 1 kind(3/2; a)  2 kind(-3/2; b)  3 kind(4; c)  4 kind(0; a)  5 kind(2; b); 6..10 wraps
+SumZeroProg(kind) ==
+  LET leaves == << Leaf(kind, 1, FOfRat(3, 2), <<"a">>), Leaf(kind, 2, FOfRat(-3, 2), <<"b">>), Leaf(kind, 3, FOfInt(4), <<"c">>),
+                   Leaf(kind, 4, FZ, <<"a">>), Leaf(kind, 1, FOfInt(2), <<"b">>) >>
+      wraps == [i \in 1..5 |-> [op |-> "wrap", a |-> i]]
+      lists == {<<1, 2, 3>>, <<2, 1, 3>>, <<4, 5>>, <<1, 2>>, <<4, 1, 2, 5>>, <<1, 2, 4, 3>>}
+  IN [key |-> "order/sumzero/" \o kind, leaves |-> leaves,
+      code |-> wraps \o SetToSeq({[op |-> "sum", kind |-> kind, regs |-> l] : l \in lists}
+                                 \cup {[op |-> "sum", kind |-> "N", regs |-> [i \in 1..Len(l) |-> l[i] + 5]] : l \in lists})]
+\* comparisons at the infinities (inf <= inf, -inf >= -inf are TRUE; nothing is computed by subtracting)
+\* registers: 1 kind(inf) 2 kind(-inf) 3 kind(1) 4 F(inf) 5 F(-inf) 6 F(1); 7..12 wraps
+InfProg(kind) ==
+  LET inf == FOfStr("Infinity") ninf == FOfStr("-Infinity")
+      leaves == << Leaf(kind, 1, inf, <<"a">>), Leaf(kind, 2, ninf, <<"a">>), Leaf(kind, 3, FOfInt(1), <<"a">>), LeafF(inf), LeafF(ninf), LeafF(FOfInt(1)) >>
+      wraps == [i \in 1..6 |-> [op |-> "wrap", a |-> i]]
+      ops == {"lt", "le", "gt", "ge", "eq", "ne"}
+      cmp == {Ins2(op, a, b) : op \in ops, a \in 1..6, b \in 1..6} \cup {Ins2(op, a, b) : op \in ops, a \in 7..12, b \in 7..12}
+             \cup {Ins2(op, a, b) : op \in ops, a \in 7..12, b \in 4..6} \cup {Ins2(op, a, b) : op \in ops, a \in 4..6, b \in 7..12}
+      py == {[op |-> "py", name |-> n, a |-> a, b |-> b] : n \in {"__eq__", "__lt__", "__le__", "__gt__", "__ge__"}, a \in {1, 2, 3}, b \in 1..6}
+  IN [key |-> "order/inf/" \o kind, leaves |-> leaves, code |-> wraps \o SetToSeq(cmp \cup py)]
 OrderLayouts == {<<<<"a", "b">>, <<"a", "b">>>>, <<<<"a", "b">>, <<"b", "a">>>>, <<<<"a">>, <<"b", "c">>>>, <<<<"a", "b", "c">>, <<"b">>>>, <<<<>>, <<"a">>>>}
 \* quotients beyond the 32-bit integers (a truncation done through an integer cast saturates there)
 Big == FMul(FOfInt(100000), FOfInt(100000))
@@ -279,7 +301,19 @@ PyProg(X, Y, neg) ==
              a \in {2, 3}, v \in {<<>>, <<"a">>, <<"b", "a">>, <<"a", "b">>, <<"p", "a">>}, nd \in 0..2, nh \in {0, 2}}
   IN [key |-> "py/" \o (IF neg THEN "neg/" ELSE "") \o ToString(X) \o ToString(Y), leaves |-> leaves,
       code |-> pre \o SetToSeq(bin \cup un \cup coreok \cup new \cup ord \cup ptr \cup man \cup vf)]
-PyProgs == {PyProg(X, Y, n) : X \in {<<"a", "b">>, <<>>}, Y \in {<<"a", "b">>, <<"b", "c">>, <<"b", "a">>}, n \in BOOLEAN}
+\* Python-level equality where one side carries an EXTRA variable with a non-zero derivative and agrees on the rest:
+\* not equal, whichever side is asked; a permuted list is equal
+\* registers: 1 D1(2; a,b)  2 D1(2; a)  3 D1(2; b,a)  4 D2(2; a,b)  5 D2(2; a)  6 D2(2; b,a)  (second-order arrays zero)
+PyEqSubProg ==
+  LET h == FOfRat(1, 2) q == FOfRat(3, 4) z2 == <<<<FZ, FZ>>, <<FZ, FZ>>>>
+      leaves == << [t |-> "D1", re |-> FTwo, vars |-> <<"a", "b">>, d |-> <<h, q>>], [t |-> "D1", re |-> FTwo, vars |-> <<"a">>, d |-> <<h>>],
+                   [t |-> "D1", re |-> FTwo, vars |-> <<"b", "a">>, d |-> <<q, h>>],
+                   [t |-> "D2", re |-> FTwo, vars |-> <<"a", "b">>, d |-> <<h, q>>, d2half |-> z2], [t |-> "D2", re |-> FTwo, vars |-> <<"a">>, d |-> <<h>>, d2half |-> <<<<FZ>>>>],
+                   [t |-> "D2", re |-> FTwo, vars |-> <<"b", "a">>, d |-> <<q, h>>, d2half |-> z2] >>
+      pairs == {<<1, 2>>, <<2, 1>>, <<1, 3>>, <<3, 1>>, <<2, 3>>, <<3, 2>>, <<4, 5>>, <<5, 4>>, <<4, 6>>, <<6, 4>>, <<5, 6>>, <<6, 5>>}
+  IN [key |-> "py/eqsub", leaves |-> leaves,
+      code |-> SetToSeq({[op |-> "py", name |-> "__eq__", a |-> p[1], b |-> p[2]] : p \in pairs} \cup {Ins2(op, p[1], p[2]) : op \in {"eq", "ne"}, p \in pairs})]
+PyProgs == {PyEqSubProg} \cup {PyProg(X, Y, n) : X \in {<<"a", "b">>, <<>>}, Y \in {<<"a", "b">>, <<"b", "c">>, <<"b", "a">>}, n \in BOOLEAN}
 
 \* ---- tails family: the far ends of the differentiable domain (C01 / C02) ---------------------------------
 \* probabilities down to 1e-300 and up to the last double below 1 for the quantile, arguments out to +-8.4 for the
@@ -302,7 +336,8 @@ TailProg(kind) ==
 TailProgs == {TailProg("D1"), TailProg("D2")}
 
 Family == IOEnv.FAMILY
-Out == CASE Family = "layout" -> LayoutProgs [] Family = "read" -> ReadProgs [] Family = "kinds" -> KindProgs [] Family = "order" -> OrderProgs \cup {SumCritProg("D1"), SumCritProg("D2"), NanProg("D1"), NanProg("D2"), NearProg("D1"), NearProg("D2")} [] Family = "py" -> PyProgs [] Family = "tails" -> TailProgs
+Out == CASE Family = "layout" -> LayoutProgs [] Family = "read" -> ReadProgs [] Family = "kinds" -> KindProgs [] Family = "order" -> OrderProgs \cup {SumCritProg("D1"), SumCritProg("D2"), NanProg("D1"), NanProg("D2"), NearProg("D1"), NearProg("D2"),
+                                                                                                       SumZeroProg("D1"), SumZeroProg("D2"), InfProg("D1"), InfProg("D2")} [] Family = "py" -> PyProgs [] Family = "tails" -> TailProgs
 ASSUME ndJsonSerialize(IOEnv.OUT, SetToSeq(Out))
 ASSUME PrintT(<<"GEN", Family, Cardinality(Out)>>)
 VARIABLE x
